@@ -50,7 +50,13 @@ func c16Owner(rel string) string {
 func c16PathCheck(w *h.World, logStart int, what, x, src string) []h.Violation {
 	var vs []h.Violation
 	if w.Dir == "" {
-		return nil
+		// a memory store without a root directory has no business with the filesystem at all (whatever it finds below
+		// the process's working directory is not the registry's)
+		for _, op := range vos.Log()[logStart:] {
+			vs = append(vs, h.V("storage-inside-root", "fs-access-by-memory-store-without-root:"+op.Kind, "%s: the memory store (no root directory configured) called %s %s", what, op.Kind, op.Path))
+			break
+		}
+		return vs
 	}
 	for _, op := range vos.Log()[logStart:] {
 		for _, p := range []string{op.Path, op.Path2} {
